@@ -61,7 +61,113 @@ func c15Sticky(x *c15x) {
 			c.Floor(cf.rule+".returns", "return statements examined in Reader methods", nret, 40)
 		}
 	}
+	x.stickyEOF()
 	x.stickyEntry()
+}
+
+// stickyEOF (S.rd.eof): the error of an io.Reader-shaped call
+// `Read([]byte) (int, error)` is stored in Reader.err only where it is known
+// not to be io.EOF. io.Reader's contract makes io.EOF the ordinary end of
+// stream; making it sticky turns every later Seek/Read into a failure, unlike
+// a bytes.Reader over the decoded bytes (repaired defect 6fda84f).
+func (x *c15x) stickyEOF() {
+	c, k := x.c, x.k
+	nsites := 0
+	isReaderShaped := func(info *types.Info, e ast.Expr) bool {
+		call, ok := ast.Unparen(e).(*ast.CallExpr)
+		if !ok {
+			return false
+		}
+		fn := core.Callee(info, call)
+		if fn == nil || fn.Name() != "Read" {
+			return false
+		}
+		sig, _ := fn.Type().(*types.Signature)
+		if sig == nil || sig.Recv() == nil || sig.Params().Len() != 1 || sig.Results().Len() != 2 {
+			return false
+		}
+		sl, ok := sig.Params().At(0).Type().Underlying().(*types.Slice)
+		if !ok || !types.Identical(sl.Elem(), types.Typ[types.Byte]) {
+			return false
+		}
+		return types.Identical(sig.Results().At(0).Type(), types.Typ[types.Int]) && c15IsError(sig.Results().At(1).Type())
+	}
+	for _, f := range x.funcs {
+		fl := x.flow(f)
+		if fl.Recv() == nil || !c15IsNamed(fl.Recv().Type(), x.rdObj) {
+			continue
+		}
+		info := f.Info()
+		var stores []*ast.AssignStmt
+		ast.Inspect(f.Decl.Body, func(n ast.Node) bool {
+			if as, ok := n.(*ast.AssignStmt); ok && as.Tok == token.ASSIGN && len(as.Lhs) == len(as.Rhs) {
+				for _, l := range as.Lhs {
+					if c15RecvField(fl, l, x.fRDErr) {
+						stores = append(stores, as)
+					}
+				}
+			}
+			return true
+		})
+		var bad []string
+		sites := 0
+		for _, st := range stores {
+			for i, l := range st.Lhs {
+				if !c15RecvField(fl, l, x.fRDErr) {
+					continue
+				}
+				v := c15LocalVar(fl, st.Rhs[i])
+				if v == nil {
+					if isReaderShaped(info, st.Rhs[i]) {
+						bad = append(bad, k.g.Pos(st.Pos())+": the result of a Read call is stored directly")
+					}
+					continue
+				}
+				defs := c15Defs(fl, v)
+				for _, d := range defs {
+					if d.Rhs == nil || !isReaderShaped(info, d.Rhs) {
+						continue
+					}
+					nsites++
+					dn := d.Node
+					isV := func(e ast.Expr) bool { return c15LocalVar(fl, e) == v }
+					isEOF := func(e ast.Expr) bool { return fl.Obj(e) == x.ioEOF }
+					esc, n := fl.Escapes(core.Query{
+						Start: func(n ast.Node) bool { return c15Within(n, dn) && !c15IsCompound(n) },
+						Exit:  func(n ast.Node) bool { return n == ast.Node(st) },
+						Events: []core.Event{
+							{Node: func(n ast.Node) bool {
+								for _, d2 := range defs {
+									if d2.Node != dn && c15Within(n, d2.Node) && !c15IsCompound(n) {
+										return true
+									}
+								}
+								return false
+							}},
+							{Edge: func(cond ast.Expr, ci *core.CondInfo, taken bool) bool {
+								if ci != nil && ci.Kind == "tagswitch" {
+									return false
+								}
+								// v != io.EOF on this edge
+								return eqTest(fl, cond, isV, isEOF, !taken)
+							}},
+						},
+					})
+					sites += n
+					for _, e := range esc {
+						bad = append(bad, fmt.Sprintf("%s: `%s` can store io.EOF obtained from `%s` (%s): %s", k.g.Pos(st.Pos()), core.Src(k.g.Fset, st), core.Src(k.g.Fset, d.Rhs), k.g.Pos(dn.Pos()), e.String()))
+					}
+				}
+			}
+		}
+		claim := "the error of an io.Reader-shaped Read call becomes sticky only where it is known not to be io.EOF (end of stream is a result, not an error state: after it, Seek and Read must still work as on a bytes.Reader)"
+		if len(bad) != 0 {
+			c.Fail("S.rd.eof", f.Name(), claim, sites, strings.Join(bad, "\n"))
+		} else if sites > 0 {
+			c.Pass("S.rd.eof", f.Name(), claim, sites, k.g.Pos(f.Decl.Pos()))
+		}
+	}
+	c.Floor("S.rd.eof", "stores of a Read call's error into Reader.err", nsites, 3)
 }
 
 func c15IsError(t types.Type) bool {
@@ -235,6 +341,16 @@ func (x *c15x) stickyFunc(cf c15StickyCfg, f *core.Func, fl *core.Flow) int {
 							}
 						}
 						return false
+					}},
+					{Edge: func(cond ast.Expr, ci *core.CondInfo, taken bool) bool {
+						// v is io.EOF on this edge, in a method that reports end of
+						// stream: io.EOF is a result, not an error state (S.*.eof below
+						// checks the converse: io.EOF is never made sticky).
+						if !cf.eofOK[f.Decl.Name.Name] || (ci != nil && ci.Kind == "tagswitch") {
+							return false
+						}
+						isEOF := func(e ast.Expr) bool { return fl.Obj(e) == x.ioEOF }
+						return eqTest(fl, cond, isV, isEOF, taken)
 					}},
 				},
 			})
